@@ -316,3 +316,137 @@ func Ambiguity(s *Schema, v *Val) float64 {
 	}
 	return f(s.Root, v, 0)
 }
+
+// RequiredEdgeInCycle reports whether some required object property (directly or through a
+// union) references a type of its own strongly connected component of the type-reference graph
+// (all edges). Used as the class predicate of the known finding "Example omits a required
+// property at the recursion cut-off".
+func RequiredEdgeInCycle(s *Schema) bool {
+	// adjacency over all reference edges
+	adj := map[string][]string{}
+	for _, t := range s.Types {
+		if t.Root != nil {
+			adj[t.Name] = ReferencedTypes(t.Root)
+		}
+	}
+	reach := func(from, to string) bool {
+		seen := map[string]bool{}
+		stack := []string{from}
+		for len(stack) > 0 {
+			x := stack[len(stack)-1]
+			stack = stack[:len(stack)-1]
+			for _, y := range adj[x] {
+				if y == to {
+					return true
+				}
+				if !seen[y] {
+					seen[y] = true
+					stack = append(stack, y)
+				}
+			}
+		}
+		return false
+	}
+	for _, t := range s.Types {
+		if t.Root == nil {
+			continue
+		}
+		found := false
+		var walk func(n *Node, required bool)
+		walk = func(n *Node, required bool) {
+			if required {
+				for _, a := range alternatives(n) {
+					name := a.Name
+					for _, rr := range a.Rules {
+						if rr.Name == "type" {
+							name = rr.Str
+						}
+					}
+					if strings.HasPrefix(name, "@") && (name == t.Name || reach(name, t.Name)) {
+						found = true
+					}
+				}
+			}
+			for _, p := range n.Props {
+				opt := s.OptKeys
+				if r := p.Node.Rule("optional"); r != nil {
+					opt = r.Bool
+				}
+				walk(p.Node, !opt)
+			}
+			for _, it := range n.Items {
+				walk(it, false)
+			}
+		}
+		walk(t.Root, false)
+		if found {
+			return true
+		}
+	}
+	return false
+}
+
+// ShortcutAmbiguous reports whether some object has a key shortcut whose own example key could
+// also be taken by another entry of that object (an explicit key, or another key shortcut whose
+// type does not clearly reject it). Which entry such a key belongs to is not decided by the
+// statements, so Example/Validate round trips are not judged for these schemas.
+func ShortcutAmbiguous(s *Schema) bool {
+	o := &Oracle{S: s}
+	amb := false
+	visit := func(root *Node) {
+		if root == nil {
+			return
+		}
+		root.Walk(func(n *Node) {
+			if n.Kind != KObject {
+				return
+			}
+			props, _, ok := o.EffProps(n)
+			if !ok {
+				amb = true
+				return
+			}
+			var shorts []*Prop
+			for _, p := range props {
+				if p.Shortcut {
+					shorts = append(shorts, p)
+				}
+			}
+			for _, p := range shorts {
+				t := s.Type(p.Key)
+				if t == nil || t.Root == nil {
+					// regex type: its example key is generated by the library; ambiguous as soon
+					// as anything else could take it
+					if len(props) > 1 {
+						amb = true
+					}
+					continue
+				}
+				k, okq := Unquote(t.Root.Lit)
+				if !okq {
+					amb = true
+					continue
+				}
+				for _, q := range props {
+					if q == p {
+						continue
+					}
+					if !q.Shortcut {
+						if q.Key == k {
+							amb = true
+						}
+						continue
+					}
+					if o.keyAccepted(q.Key, k) != Reject {
+						amb = true
+					}
+				}
+			}
+		})
+	}
+	visit(s.Root)
+	for _, t := range s.Types {
+		visit(t.Root)
+	}
+	return amb
+}
